@@ -11,7 +11,7 @@ INV_OF = {"C06": {"Informed"}, "C11": set(),
 EVENTS_OF = {"C11": ("tok.init", "tok.info", "h.start", "tok.acq", "end"),   # the next scheduler on the token directory a dead one left
              "C06": ("sched.dep", "h.quiescent", "tok.evt.info"),     # a job that waits for ever with the token free: the submission steps, the quiescent points
              "C08": ("tok.acq", "tok.create", "tok.file.delete", "tok.watch.reclaim", "tok.evt.cached", "tok.rel", "h.start"),
-             "C09": ("sched.dep", "tok.rel", "tok.evt", "tok.init", "tok.dep.changed", "tok.watch", "tok.file.delete", "h.quiescent", "tok.init.error", "tok.acq.count", "h.start")}
+             "C09": ("sched.dep", "tok.rel", "tok.evt", "tok.init", "tok.dep.changed", "tok.watch", "tok.watching", "tok.file.delete", "h.quiescent", "tok.init.error", "tok.acq.count", "h.start")}
 
 
 def lazy_table(rep, prop):
@@ -101,8 +101,39 @@ def run(rep, prop, tier, replay_name=None, only=None):
         rep.add_tlc("MC_TokenFS_resubmit_F23", res, "the reclaim as it was (no job lock): must violate RunningHoldFile")
         if not res.violation and not res.error:
             rep.machinery_failure("MC_TokenFS does not show the stale reclaim (F23)")
+        res = tlc.tlc("MC_TokenFS.tla", "MC_TokenFS_resubmit_F28.cfg", timeout=2400)
+        rep.add_tlc("MC_TokenFS_resubmit_F28", res, "late deletion events handled as they were (the token held again is forgotten, then watched by a thread "
+                    "of its own process, which the job lock does not stop): must violate RunningHoldFile")
+        if not res.violation and not res.error:
+            rep.machinery_failure("MC_TokenFS does not show the late deletion event (F28)")
     if replay_name is None and not only and prop == "C09":
         lazy_table(rep, prop)
+        # the owner's release against the reclaim thread of another scheduler, at the grain of TokenFile.delete() (F26)
+        res = tlc.tlc("MC_TokenFS.tla", "MC_TokenFS_F26.cfg", timeout=1200)
+        rep.add_tlc("MC_TokenFS_F26", res, "is_file() / unlink() as they were (the error of the unlink escapes from release()): must violate Informed")
+        if not res.violation and not res.error:
+            rep.machinery_failure("MC_TokenFS does not show the release raced by a reclaim thread (F26)")
+        # a scheduler that starts while the token file of an ended job is still there: first count, reclaim, watching (F27)
+        res = tlc.tlc("MC_TokenFS.tla", "MC_TokenFS_F27.cfg", timeout=1200)
+        rep.add_tlc("MC_TokenFS_F27", res, "CounterToken.__init__ as it was (counted once, before the directory is watched): must violate Informed")
+        if not res.violation and not res.error:
+            rep.machinery_failure("MC_TokenFS does not show the deletion that falls between the first count and the watching (F27)")
+        if tier == "thorough":
+            res = tlc.tlc("MC_TokenFS.tla", "MC_TokenFS_latestart.cfg", timeout=2400)
+            rep.add_tlc("MC_TokenFS_latestart", res, "a scheduler that starts at any moment of the life of the other one's job (StartCount, StartWatch), one unit")
+            if res.violation:
+                if res.violation[1] in INV_OF[prop]:
+                    rep.violation(f"{prop}/model/{res.violation[1]}", f"TLC: {res.violation} in MC_TokenFS_latestart", {"tlc_tail": res.out[-2500:]})
+            elif res.error:
+                rep.machinery_failure(f"TLC failed on MC_TokenFS_latestart: {res.error}")
+            res = tlc.tlc("MC_TokenFS.tla", "MC_TokenFS_raced.cfg", timeout=2400)
+            rep.add_tlc("MC_TokenFS_raced", res, "two jobs of one scheduler, one unit, the other scheduler only watches: every placement of its reclaim "
+                        "between the owner's test and removal of the token file")
+            if res.violation:
+                if res.violation[1] in INV_OF[prop]:
+                    rep.violation(f"{prop}/model/{res.violation[1]}", f"TLC: {res.violation} in MC_TokenFS_raced", {"tlc_tail": res.out[-2500:]})
+            elif res.error:
+                rep.machinery_failure(f"TLC failed on MC_TokenFS_raced: {res.error}")
     if replay_name is None and not only:
         if prop in ("C06", "C09"):
             # the two steps of a submission (register with the token, first check): the order of the code holds, the other loses a release
@@ -153,6 +184,10 @@ def run(rep, prop, tier, replay_name=None, only=None):
         else:
             reached = v["reached"] or 0
             nxt = r["ev"][reached] if reached < len(r["ev"]) else {"e": "end"}
+            if nxt["e"].startswith("h.") and not nxt["e"].startswith(("h.start", "h.quiescent")) and prop in ("C08", "C09"):
+                # a step of the harness itself that the model cannot take: the scenario and the model disagree, nothing is known
+                # about the code (the rest of the trace was not examined)
+                rep.machinery_failure(f"token scenario {name}: the model cannot take the harness step {nxt} (event {reached + 1})")
             if nxt["e"].startswith(EVENTS_OF[prop]):
                 what = {k: nxt[k] for k in ("e", "p", "job", "available", "new", "by") if k in nxt}
                 rep.violation(f"{prop}/token-trace/{name}/{nxt['e']}", f"scenario {name}: no behaviour of XpmTokenFS explains event {reached + 1}: {what}", payload)
